@@ -72,7 +72,15 @@ def _gen_cases(rng, tier):
                 lim = ["frac", 1, 100]
             if lim and lim[0] == "int" and (lim[1] == -1 or lim[1] > 4):
                 lim = ["int", 4]
-            sub = None if rng.random() < 0.25 else [f for f in faces if rng.random() < 0.5]
+            q = rng.random()
+            sub = None if q < 0.3 else "maxcount" if q < 0.4 else [f for f in faces if rng.random() < 0.5]
+            if (sub is None or sub == "maxcount") and h and rng.random() < 0.5:
+                # the histogram-dependent predicates must see the histogram as given: zero-count faces
+                # at the top / unreduced counts
+                top = max(Fraction(*o) for o, _ in h) + rng.randint(1, 2)
+                h = h + [[[top.numerator, top.denominator], 0]]
+                if rng.random() < 0.5:
+                    h = [[o, c * 2] for o, c in h]
             inf = rng.choice([None, None, 1000])
             cases.append({"kind": "explode", "h": h, "sub": sub, "lim": lim, "inf": inf})
         elif r < 8:
@@ -110,7 +118,9 @@ def impl_run(case):
     try:
         if k == "explode":
             kw = {}
-            if case["sub"] is not None:
+            if case["sub"] == "maxcount":
+                kw["predicate"] = lambda r: r.h[r.outcome] == max(r.h.counts())
+            elif case["sub"] is not None:
                 sub = [gens.py_outcome(o) for o in case["sub"]]
                 kw["predicate"] = lambda r: r.outcome in sub
             if case["inf"] is not None:
@@ -168,6 +178,8 @@ def coq_check(case, r):
         inf = "None" if case["inf"] is None else f"(Some {cq([case['inf'], 1])})"
         if case["sub"] is None:
             return f"chk_explode_default {chist(case['h'])} {ec.climit(case['lim'])} {inf} {e}"
+        if case["sub"] == "maxcount":
+            return f"chk_explode_maxcount {chist(case['h'])} {ec.climit(case['lim'])} {inf} {e}"
         return f"chk_explode {chist(case['h'])} {clist(cq(o) for o in case['sub'])} {ec.climit(case['lim'])} {inf} {e}"
     if k == "substitute":
         tbl = clist(f"({cq(f)}, {_cval(t)})" for f, t in case["table"])
@@ -234,8 +246,9 @@ def oracle(case):
             lim = case["lim"]
             fractional = lim is not None and lim[0] not in ("int", "bool")
             if case["sub"] is None:
-                mx = max((Fraction(*o) for o, _ in h), default=None)
                 pred = lambda f, items: f == max(Fraction(*o) for o, _ in items)
+            elif case["sub"] == "maxcount":
+                pred = lambda f, items: dict((Fraction(*o), c) for o, c in items)[f] == max(c for _, c in items)
             else:
                 sub = {Fraction(*o) for o in case["sub"]}
                 pred = lambda f, items: f in sub
